@@ -199,6 +199,69 @@ fn run_inner(op: &str, a: &[Arg]) -> String {
             }),
             _ => panic!("HARNESS: mixed kinds"),
         },
+        "and.self" | "or.self" | "xor.self" => match f(&a[0]) {
+            Val::E(x) => enc_expr(&match op {
+                "and.self" => x.clone() & x.clone(),
+                "or.self" => x.clone() | x.clone(),
+                _ => x.clone() ^ x.clone(),
+            }),
+            Val::T(x) => enc_table(&match op {
+                "and.self" => x & x,
+                "or.self" => x | x,
+                _ => x ^ x,
+            }),
+            Val::B(x) => enc_bdd(&match op {
+                "and.self" => x & x,
+                "or.self" => x | x,
+                _ => x ^ x,
+            }),
+        },
+        "row" => {
+            let k: usize = xs(&a[1]).parse().expect("HARNESS: k");
+            match f(&a[0]) {
+                Val::T(x) => {
+                    if k < x.row_count() {
+                        enc_point(&x.row(k))
+                    } else {
+                        "none".to_string()
+                    }
+                }
+                _ => "none".to_string(),
+            }
+        }
+        // enumerations consumed only partly
+        "satpoint" => {
+            let p = match f(&a[0]) {
+                Val::E(x) => x.sat_point(),
+                Val::T(x) => x.sat_point(),
+                Val::B(x) => x.sat_point(),
+            };
+            match p {
+                Some(p) => format!("(some {})", enc_point(&p)),
+                None => "none".to_string(),
+            }
+        }
+        "dom.first" => {
+            let k: usize = xs(&a[1]).parse().expect("HARNESS: k");
+            let pts: Vec<Vec<bool>> = match f(&a[0]) {
+                Val::E(x) => x.domain().take(k).collect(),
+                Val::T(x) => x.domain().take(k).collect(),
+                Val::B(x) => x.domain().take(k).collect(),
+            };
+            format!("({})", pts.iter().map(|p| enc_point(p)).collect::<Vec<_>>().join(" "))
+        }
+        "rel.nth" => {
+            let k: usize = xs(&a[1]).parse().expect("HARNESS: k");
+            let r = match f(&a[0]) {
+                Val::E(x) => x.relation().nth(k),
+                Val::T(x) => x.relation().nth(k),
+                Val::B(x) => x.relation().nth(k),
+            };
+            match r {
+                Some((p, b)) => format!("(some {} {})", enc_point(&p), enc_bool(b)),
+                None => "none".to_string(),
+            }
+        }
         "imply" => match (f(&a[0]), f(&a[1])) {
             (Val::E(x), Val::E(y)) => enc_expr(&x.clone().imply(y.clone())),
             _ => panic!("HARNESS: kind"),
